@@ -2,9 +2,10 @@ SPECIFICATION Spec
 CONSTANTS
   Procs <- P2
   Dev <- DevIdeal
-  Scenarios <- ScnAll
+  Scenarios <- ScnAllP
 INVARIANT NoFailure
 INVARIANT SerialResults
 INVARIANT StoreUnchanged
 INVARIANT NoDeadlock
+INVARIANT WalAtWork
 CHECK_DEADLOCK FALSE
